@@ -1385,17 +1385,33 @@ def rule_not_a_kind(prog):
         for m in hir.nodes(b["body"], "Match"):
             if m.get("src") != "match" or len(m["arms"]) < 2:
                 continue
-            last_arm = m["arms"][-1]
-            if not hir.is_wild(last_arm["pat"]):
+            def unsome(p_):
+                """`Some(<p>)` -> `<p>` (a match on the Option a lookup answers)"""
+                p_ = hir.pat_strip(p_)
+                if p_.get("k") == "TupleStruct" and last(hir.pat_variant(p_) or "") == "Some" and len(p_.get("pats") or []) == 1:
+                    return hir.pat_strip(p_["pats"][0]), True
+                return p_, False
+            # the fall-through arm: `_`, or `Some(_)` behind the arms for the kinds that are wanted
+            ft = None
+            for i_, a_ in enumerate(m["arms"]):
+                q_, was_some = unsome(a_["pat"])
+                if (hir.is_wild(a_["pat"]) or (was_some and hir.is_wild(q_))) and i_ > 0:
+                    ft = i_
+                    break
+            if ft is None:
                 continue
-            reports = [x for x in hir.nodes(last_arm["body"], "MethodCall") if x["m"] == "append_error"]
+            last_arm = m["arms"][ft]
+            # (reported on the spot, through a helper, or by yielding the message that is reported once behind the match)
+            reports = [x for x in hir.nodes_deep(prog, last_arm["body"], 2, crate=c) if x.get("k") == "MethodCall" and x["m"] == "append_error"] or \
+                [x for x in hir.nodes(last_arm["body"], "Path") if "ErrorMessage::" in (x["res"].get("ctor_of") or "") and
+                 (x["res"].get("ctor_of") or "").startswith("spl_frontend::error::")]
             if not reports:
                 continue
-            for arm in m["arms"][:-1]:
-                for alt in hir.pat_alternatives(arm["pat"]):
+            for arm in m["arms"][:ft]:
+                for alt in hir.pat_alternatives(unsome(arm["pat"])[0]):
                     alt_s = hir.pat_strip(alt)
                     v = hir.pat_variant(alt_s)
-                    if not v:
+                    if not v or last(v) in ("Some", "None", "Ok", "Err"):
                         continue
                     subs = [f["pat"] for f in alt_s.get("fields", [])] if alt_s.get("k") == "Struct" else alt_s.get("pats", [])
                     ok = all(irrefutable(q) for q in subs) and arm.get("guard") is None
@@ -1409,7 +1425,8 @@ def rule_not_a_kind(prog):
             cond = hir.strip(iff["cond"])
             if cond.get("k") != "LetExpr" or not iff.get("else"):
                 continue
-            if not any(x["m"] == "append_error" for x in hir.nodes(iff["else"], "MethodCall")):
+            if not any(x.get("k") == "MethodCall" and x["m"] == "append_error" for x in hir.nodes_deep(prog, iff["else"], 2, crate=c)) and \
+                    not any("ErrorMessage::" in (x["res"].get("ctor_of") or "") for x in hir.nodes(iff["else"], "Path")):
                 continue
             for alt in hir.pat_alternatives(cond["pat"]):
                 alt_s = hir.pat_strip(alt)
